@@ -16,8 +16,12 @@ Oracle = the property on the real code, after every step of every session:
   (3) diagnostics / links / outline / file set = those of the same session over an in-memory file system that
       holds disk-overlaid-by-buffers by construction (the reference session model of the property; same
       real analysis code, so a defect of another property cannot raise a C12 alarm).
-The JSON-RPC level (real Server, didOpen/didChange, published diagnostics) is covered by the server
-group's lspdrive; this check works at the AnalysisHost + Vfs level."""
+  (4) the REAL Server (harness `lspdrive`, JSON-RPC over an in-memory transport, settled mode): the same sessions as
+      didOpen / didChange notifications; after every notification the published diagnostics and documentSymbol of
+      every workspace file = those of the reference session.  This layer exercises Server::set_file_content itself
+      (layers 1-3 replicate its statements by hand and cannot see a change inside server.rs).
+When the Vfs API changes so that `vfsdrive` no longer compiles, that is reported as a broken tie and layer (4) still
+looks for a concrete failing input."""
 import itertools
 import json
 import os
@@ -34,7 +38,8 @@ TRUSTED = [
     "path algebra: theorem for every PathAlg with a decidable equality; the tie uses relative paths below one directory without '.', '..' or empty segments",
     "didOpen and didChange are the same operation Server::set_file_content (full-text sync); didClose is not handled by the server (documents stay open)",
     "salsa returns for a derived query what the query function returns on the current inputs (DESIGN section 2)",
-    "extraction (ExtrOcamlBasic), host_driver.ml, harness hostdrive.rs (replicates the five statements of Server::set_file_content around the real Vfs), lib/hostlib.py",
+    "extraction (ExtrOcamlBasic), host_driver.ml, harness hostdrive.rs / vfsdrive.rs (replicates the five statements of Server::set_file_content around the real Vfs), "
+    "lspdrive.rs (server group: real Server over an in-memory transport; sessions it cannot settle are counted, not judged), lib/hostlib.py",
 ]
 
 
@@ -114,12 +119,15 @@ def scratch():
     return d
 
 
-def check(ctx, bindir, exe, cases):
+def check(ctx, bindir, exe, cases, vfs_ok=True, lsp_bindir=None):
     base = scratch()
+    mcases = [dict(c, mode="memfs") for c in cases]
     try:
-        vcases = [dict(c, mode="vfs", dir=os.path.join(base, "c%d" % i)) for i, c in enumerate(cases)]
-        mcases = [dict(c, mode="memfs") for c in cases]
-        res = H.evaluate(bindir, exe, vcases, timeout_ms=4000)
+        if vfs_ok:
+            vcases = [dict(c, mode="vfs", dir=os.path.join(base, "c%d" % i)) for i, c in enumerate(cases)]
+            res = H.evaluate(bindir, exe, vcases, timeout_ms=4000)
+        else:
+            res = [{"impl": {"skipped": True}, "bad": [], "tie": None, "obs": [], "model": None} for _ in cases]
         mem = H.run_harness(bindir, mcases, 4000)
     finally:
         shutil.rmtree(base, ignore_errors=True)
@@ -180,16 +188,64 @@ def check(ctx, bindir, exe, cases):
                 stats["open_outside"] += 1
             if any(q not in last for q in files):
                 stats["never_opened_in_ws"] += 1
+    # ---- the real Server (JSON-RPC level): Server::set_file_content itself, not a replica of its statements
+    stats["server_sessions"] = stats["server_steps"] = stats["server_unusable"] = 0
+    if lsp_bindir is not None:
+        from concurrent.futures import ThreadPoolExecutor
+        todo = [(c, m) for c, m in zip(cases, mem) if "steps" in m]
+        scripts = [H.lsp_script(c, [st.get("files") or [] for st in m["steps"]]) for c, m in todo]
+        with ThreadPoolExecutor(max_workers=max(2, min(8, vlib.NCPU - 2))) as ex:
+            outs = list(ex.map(lambda sm: H.run_lsp(lsp_bindir, sm[0]), scripts))
+        for (c, m), (script, marks), out in zip(todo, scripts, outs):
+            obs = H.lsp_observe(out, script, marks)
+            if obs is None:
+                stats["server_unusable"] += 1
+                continue
+            stats["server_sessions"] += 1
+            for k, (diags, syms) in enumerate(obs):
+                if k >= len(m["steps"]):
+                    break
+                ref = m["steps"][k]
+                fsys = H.overlay_after(c, k + 1)
+                stats["server_steps"] += 1
+                for q in ref.get("files") or []:
+                    want = sorted(H.offsets_to_lsp(fsys[q], a, b) + [msg] for a, b, msg in ref["diagnostics"].get(q, []))
+                    if diags.get(q) != want:
+                        note("server:published-diagnostics-differ-from-reference-session", c, k,
+                             {"file": q, "published": diags.get(q), "reference_session": want, "session": script["steps"]})
+                    ol = ref["outline"].get(q)
+                    wnames = None if ol is None else [n for n, _ in ol]
+                    if syms.get(q) != wnames:
+                        note("server:documentSymbol-differs-from-reference-session", c, k,
+                             {"file": q, "documentSymbol": syms.get(q), "reference_session": wnames, "session": script["steps"]})
     return res, viol, ties, stats
 
 
-def run(ctx):
+def builds(fails):
+    """hostdrive must build; vfsdrive / lspdrive may stop compiling when the Vfs / Server API changes: that is a
+    broken tie, and the remaining layers go on looking for a failing input"""
     bindir = vlib.build_harness(False, bins=["hostdrive"])
+    vfs_ok, lsp_bindir = True, None
+    try:
+        vlib.build_harness(False, bins=["vfsdrive"])
+    except vlib.BuildError as ex:
+        vfs_ok = False
+        fails.append({"kind": "harness-build", "file": "vfsdrive (statements of Server::set_file_content around the real Vfs) does not compile: the Vfs API changed",
+                      "error": str(ex)[-1500:]})
+    try:
+        lsp_bindir = vlib.build_harness(True, bins=["lspdrive"])
+    except vlib.BuildError as ex:
+        fails.append({"kind": "harness-build", "file": "lspdrive (real Server) does not compile", "error": str(ex)[-1500:]})
+    return bindir, vfs_ok, lsp_bindir
+
+
+def run(ctx):
     fails = vlib.proof_step(ctx, "TG.Props.C12", THEOREMS, ["props/C12.vo"], TRUSTED, translators=[])
+    bindir, vfs_ok, lsp_bindir = builds(fails)
     exe = vlib.build_model("host")
     H.calibrate(bindir)
     cases, nfam, nrand, L = gen_cases(ctx)
-    res, viol, ties, stats = check(ctx, bindir, exe, cases)
+    res, viol, ties, stats = check(ctx, bindir, exe, cases, vfs_ok, lsp_bindir)
     found = False
     for kind, (c, step, detail) in sorted(viol.items()):
         found = True
@@ -217,6 +273,8 @@ def run(ctx):
         "steps_with": {"open document reached through an include, disk differs": stats["open_included"],
                        "open document outside the workspace": stats["open_outside"],
                        "never-opened file in the workspace": stats["never_opened_in_ws"]},
+        "real_server_sessions": stats["server_sessions"], "real_server_steps_compared": stats["server_steps"],
+        "real_server_sessions_unusable": stats["server_unusable"],
         "exhaustive": False,
         "samples": [dict(pub(c), gen=c.get("gen")) for c in (cases[0], cases[nfam // 2], cases[-1])],
         "traces_validated_against_impl": sum(1 for r in res if "steps" in r["impl"] and r["tie"] is None),
@@ -234,9 +292,9 @@ def replay(ctx, path):
     case = obj["case"]
     for t, fl in (obj.get("reached") or {}).items():
         H.REACHED.setdefault(t, fl)
-    bindir = vlib.build_harness(False, bins=["hostdrive"])
+    bindir, vfs_ok, lsp_bindir = builds([])
     exe = vlib.build_model("host")
-    res, viol, ties, stats = check(ctx, bindir, exe, [case])
+    res, viol, ties, stats = check(ctx, bindir, exe, [case], vfs_ok, lsp_bindir)
     print("implementation (real Vfs):", json.dumps(res[0]["impl"])[:3000])
     print("model:", json.dumps(res[0]["model"])[:2000])
     for kind, (c, step, detail) in sorted(viol.items()):
